@@ -61,7 +61,7 @@ func (p *projSpec) semanticItems() []string {
 	}
 	for i := range p.Targets {
 		for k, r := range p.Targets[i].Refs {
-			if r.Kind == "lit" || r.Kind == "default" || r.Kind == "freevar" || r.Kind == "twins" || r.Kind == "cacheonce" || r.Kind == "lateglobal" || r.Kind == "structfn" || r.Kind == "kwonly" || r.Kind == "fnkeys" || r.Kind == "dag" {
+			if r.Kind == "lit" || r.Kind == "default" || r.Kind == "freevar" || r.Kind == "twins" || r.Kind == "cacheonce" || r.Kind == "lateglobal" || r.Kind == "structfn" || r.Kind == "kwonly" || r.Kind == "fnkeys" || r.Kind == "dag" || r.Kind == "manynested" {
 				out = append(out, fmt.Sprintf("ref|%s|%d", p.Targets[i].label(), k))
 			}
 			if r.Kind == "twins" || r.Kind == "lateglobal" {
